@@ -313,6 +313,59 @@ func accessorSource(units []*unitData) string {
 }
 
 `)
-	sb.WriteString("func init() {\n\textraOps[\"K\"] = opK\n" + body.String() + "}\n")
+	sb.WriteString(`// scramble modifies everything reachable from v IN PLACE (elements of slices, entries of maps, pointees), never
+// by assigning a new container to a field: what aliases a shared default object changes that object.
+func scramble(v reflect.Value) {
+	switch v.Kind() {
+	case reflect.Ptr, reflect.Interface:
+		if !v.IsNil() {
+			scramble(v.Elem())
+			if v.Kind() == reflect.Ptr && v.Elem().CanSet() {
+				v.Elem().Set(reflect.Zero(v.Elem().Type()))
+			}
+		}
+	case reflect.Slice:
+		for i := 0; i < v.Len(); i++ {
+			scramble(v.Index(i))
+			if v.Index(i).CanSet() {
+				v.Index(i).Set(reflect.Zero(v.Type().Elem()))
+			}
+		}
+	case reflect.Map:
+		if v.IsNil() {
+			return
+		}
+		for _, k := range v.MapKeys() {
+			scramble(v.MapIndex(k))
+			v.SetMapIndex(k, reflect.Value{})
+		}
+		v.SetMapIndex(reflect.Zero(v.Type().Key()), reflect.Zero(v.Type().Elem()))
+	case reflect.Struct:
+		for i := 0; i < v.NumField(); i++ {
+			if v.Field(i).CanSet() {
+				scramble(v.Field(i))
+			}
+		}
+	}
+}
+
+// A <key> <zero value>: InitDefault on a zero struct, in-place modification of everything it holds, then
+// InitDefault on a second zero struct (dumped) and every getter/IsSet on a fresh zero object.
+func opA(args []string) string {
+	e := lookup(args[0])
+	x := reflect.New(e.typ)
+	m := x.MethodByName("InitDefault")
+	if !m.IsValid() {
+		return "nomethod"
+	}
+	m.Call(nil)
+	scramble(x.Elem())
+	y := reflect.New(e.typ)
+	y.MethodByName("InitDefault").Call(nil)
+	return "ok " + e.dumpObj(y) + " | " + opG(args)
+}
+
+`)
+	sb.WriteString("func init() {\n\textraOps[\"K\"] = opK\n\textraOps[\"A\"] = opA\n" + body.String() + "}\n")
 	return sb.String()
 }
